@@ -52,7 +52,7 @@ def run_legs(ctx, nontrivial):
     execs = []
     g = ctx.tlc("Gen_PluginChain", ctx.write_cfg("Gen_PluginChain_bfs", GEN % ('"P1", "P2", "P3"', 4 if ctx.quick else 5)), workers=8, timeout=900)
     execs += [[[s["op"], s["name"]] for s in h] for h in g.beh]
-    g = ctx.tlc("Gen_PluginChain", ctx.write_cfg("Gen_PluginChain_sim", GEN % (names5 + ', "P6"', 16)), workers=8, simulate=60 if ctx.quick else 600,
+    g = ctx.tlc("Gen_PluginChain", ctx.write_cfg("Gen_PluginChain_sim", GEN % (names5 + ', "P6", "null"', 16)), workers=8, simulate=60 if ctx.quick else 600,
                 depth=20, timeout=900)
     execs += [[[s["op"], s["name"]] for s in h] for h in g.beh]
     if not execs:
